@@ -164,7 +164,8 @@ def run_scenario(sc, strategy=None, race=False):
             main.startModule(Starter())
 
         def env():
-            for at, action, mi, arg in sorted(sc.get('env', []), key=lambda e: (isinstance(e[0], tuple), e[0] if not isinstance(e[0], tuple) else e[0][1])):
+            entries = [(tuple(e[0]) if isinstance(e[0], list) else e[0], e[1], e[2], e[3]) for e in sc.get('env', [])]
+            for at, action, mi, arg in sorted(entries, key=lambda e: (isinstance(e[0], tuple), e[0] if not isinstance(e[0], tuple) else e[0][1])):
                 if isinstance(at, tuple):       # ('after', k): right after the k-th doPoll of module mi returned
                     k = at[1]
                     s.block(lambda: done.get((mi, 'doPoll'), 0) >= k, None, 'env.after')
@@ -172,8 +173,19 @@ def run_scenario(sc, strategy=None, race=False):
                     delay = at * TICK - (s.now - T0)
                     if delay > 0:
                         s.sleep(delay)
-                log.append({'ev': 'env', 't': tk(s), 'action': action, 'm': mi, 'arg': arg})
                 m = mods[mi]
+                if action == 'racepair':
+                    # two run-time changes issued by two threads at the same instant, interleaved at every line of
+                    # frappy/modulebase.py (only these two threads are traced line by line)
+                    s.trace_files = ('frappy/modulebase.py',)
+                    racers = [s.spawn('race%d' % k, perform, m, mi, a, g) for k, (a, g) in enumerate(arg)]
+                    s.block(lambda: all(r.finished for r in racers), None, 'env.racers')
+                    s.trace_files = ()
+                    continue
+                perform(m, mi, action, arg)
+
+        def perform(m, mi, action, arg):
+                log.append({'ev': 'env', 't': tk(s), 'action': action, 'm': mi, 'arg': arg})
                 if action == 'fast':
                     m.setFastPoll(bool(arg[0]), arg[1] * TICK)
                 elif action == 'interval':
